@@ -56,7 +56,6 @@ const (
 	specialOpen  = "special-only-open"
 	lenLanguage  = "fs-language-unchecked"
 	mustReject   = "must-reject"
-	uriCaseFold  = "uri-nonascii-case-fold"
 	rtUnderscore = "roundtrip-quoted-underscore"
 )
 
